@@ -5,9 +5,10 @@ C15  Restarts never duplicate an opening transaction, payment or refund.
 
 Model: the abstract engine (crash at every persisted point and inside every action, restart = recovery
 as fsm.go does it) over the GENERATED tables; maker flags (Model/AbsMk.lean), taker flags
-(Model/AbsC06.lean).  Full statement: FALSE on this tree for the opening transaction (crash between the
-wallet's broadcast and the next persist: the idempotence guard reads a record that was never written;
-known finding).  Proved here: at most one opening transaction for every history without that crash; the
+(Model/AbsC06.lean).  The opening clause is proved at full strength (`C15_one_opening`: crashes between the wallet's broadcast
+and the persist, wallet errors after the broadcast) since the repair "do not repeat a failed opening
+broadcast on recovery"; the witness of the violation in the code before it is
+`Findings.C07.C15_violated_second_opening_before_fix`.  Also proved: the
 spend-back transaction is created at most once per record (guarded by the persisted ClaimTxId); a taker
 whose claim payment succeeded never starts another one when the preimage is persisted (C06 partial).
 The "same parameters when re-sent" and "no payment after cancel" clauses are checked by the monitor on
@@ -32,6 +33,43 @@ theorem C15_partial_one_opening_out : ∀ m, Reach (sysOut benign) m → m.f.ope
   intro m hm
   have := one_of_allProps m (allProps_out m hm)
   simpa [oneOpening] using this
+
+/-! ### the opening clause at full strength (since fix "do not repeat a failed opening broadcast on recovery")
+
+`hostile`: the process can die between the wallet's broadcast and the persist that follows, the wallet
+adapter can broadcast and then report an error, GetOutputScript and the policy file can fail. -/
+
+def certInH := reachCert (sysIn hostile) 80
+def certOutH := reachCert (sysOut hostile) 80
+def openingOk (m : MC F) : Bool := !m.f.unknownAct && oneOpening m
+
+theorem certInH_ok : (closedCert (sysIn hostile) certInH && allGood certInH openingOk) = true := by decide +kernel
+theorem certOutH_ok : (closedCert (sysOut hostile) certOutH && allGood certOutH openingOk) = true := by decide +kernel
+
+/-- C15, opening clause, both maker roles: in EVERY history of events, failing local services, wallet
+    errors before or after the broadcast, crashes at every persisted point and inside every action
+    (between the wallet's broadcast and the persist included) and restarts, at most one opening
+    transaction is broadcast for a swap -/
+theorem C15_one_opening :
+    (∀ m, Reach (sysIn hostile) m → m.f.openings ≤ 1) ∧ (∀ m, Reach (sysOut hostile) m → m.f.openings ≤ 1) := by
+  have hi := certInH_ok
+  have ho := certOutH_ok
+  simp only [Bool.and_eq_true] at hi ho
+  refine ⟨fun m hm => ?_, fun m hm => ?_⟩
+  · have := invariant_of_cert _ certInH openingOk hi.1 hi.2 m hm
+    simp only [openingOk, oneOpening, Bool.and_eq_true, decide_eq_true_eq] at this
+    exact this.2
+  · have := invariant_of_cert _ certOutH openingOk ho.1 ho.2 m hm
+    simp only [openingOk, oneOpening, Bool.and_eq_true, decide_eq_true_eq] at this
+    exact this.2
+
+/-- non-vacuity: configurations in which the record shows a failed attempt while an opening transaction is
+    on the chain (the adapter failed after its broadcast), and dead processes with an unrecorded opening,
+    are reachable in that environment -/
+theorem C15_one_opening_nonvacuous :
+    (certInH.toList.any fun m => m.f.openings == 1 && m.f.openFailed && !m.f.openingRec) = true ∧
+    (certOutH.toList.any fun m => m.f.openings == 1 && !m.alive && !m.f.openingRec) = true := by
+  decide +kernel
 
 /-- the states in which a claim payment can be started are not reachable again once the swap went to a
     cancel / coop-close state: no edge of the generated taker tables leads back (checked over all rows) -/
